@@ -612,6 +612,7 @@ vbi_draw_vt_page_region(vbi_page *pg,
 	int count, row_adv;
 	int conceal, off, unicode;
 	vbi_char *ac;
+	vbi_size size;
         int canvas_type;
 	int i;
 
@@ -667,7 +668,27 @@ vbi_draw_vt_page_region(vbi_page *pg,
                                 pen.rgba[1] = pg->color_map[ac->foreground];
                         }
 
-			switch (ac->size) {
+			size = ac->size;
+
+			if (1 == count) {
+				/* A double width character in the last column
+				   would be drawn 12 pixels past the region. */
+				switch (size) {
+				case VBI_DOUBLE_WIDTH:
+					size = VBI_NORMAL_SIZE;
+					break;
+				case VBI_DOUBLE_SIZE:
+					size = VBI_DOUBLE_HEIGHT;
+					break;
+				case VBI_DOUBLE_SIZE2:
+					size = VBI_DOUBLE_HEIGHT2;
+					break;
+				default:
+					break;
+				}
+			}
+
+			switch (size) {
 			case VBI_OVER_TOP:
 			case VBI_OVER_BOTTOM:
 				break;
@@ -679,7 +700,7 @@ vbi_draw_vt_page_region(vbi_page *pg,
 					if (font)
 						draw_drcs(canvas_type, canvas, rowstride,
 							  (uint8_t *) &pen, ac->drcs_clut_offs,
-							  font, unicode & 0x3F, ac->size);
+							  font, unicode & 0x3F, size);
 					else /* shouldn't happen */
 						draw_blank(canvas_type, canvas, rowstride,
 							   ((canvas_type == 1) ? pen.pal8[0]: pen.rgba[0]),
@@ -694,7 +715,7 @@ vbi_draw_vt_page_region(vbi_page *pg,
 						   unicode_wstfont2 (unicode, ac->italic),
 						   ac->bold,
 						   ac->underline << 9 /* cell row 9 */,
-						   ac->size);
+						   size);
 				}
 			}
 
